@@ -178,13 +178,14 @@ def neDepth (a b : Node) : Nat := 1 + eqDepth a b
     on. Each of them is compared with `c.parent = P` (unequal: popped), then `P` with itself (same object). -/
 
 mutual
-/-- the tags below-or-equal `k` still on `tag_stack` when the element after `k`'s subtree arrives -/
-def spine : Node → List Node
+/-- the tags below-or-equal `k` still on `tag_stack` when the element after `k`'s subtree arrives, in stack order
+    (deepest first) -/
+def spineD : Node → List Node
   | .str _ => []
-  | .tag n a kx v ks => if v && ks.isEmpty then [] else (.tag n a kx v ks) :: spineLast ks
-def spineLast : List Node → List Node
+  | .tag n a kx v ks => if v && ks.isEmpty then [] else spineDL ks ++ [.tag n a kx v ks]
+def spineDL : List Node → List Node
   | [] => []
-  | k :: ks => if ks.isEmpty then spine k else spineLast ks
+  | k :: ks => if ks.isEmpty then spineD k else spineDL ks
 end
 
 /-- one evaluation of `c.parent <cmp> X` for a different object `X` -/
@@ -192,19 +193,112 @@ def cmpCost (cfg : Cfg) (p x : Node) : Nat := if cfg.neIdentity then 0 else neDe
 /-- `c.parent <cmp> c.parent`: `is not` costs nothing; `!=` is `__ne__` → `__eq__` returning at `self is other` -/
 def sameCost (cfg : Cfg) : Nat := if cfg.neIdentity then 0 else 2
 
-/-- the comparisons made while the children of `p` arrive: after each child that has a successor -/
-def evBoundaries (cfg : Cfg) (p : Node) : List Node → Nat
-  | [] => 0
-  | k :: ks => if ks.isEmpty then 0 else max (max (loopMax (spine k) (cmpCost cfg p)) (sameCost cfg)) (evBoundaries cfg p ks)
-
 mutual
-/-- deepest comparison `_event_stream` makes anywhere below (and at) this element -/
+/-- deepest comparison `_event_stream` makes anywhere below (and at) this element, when it is iterated over with its
+    parent on the stack (or as the root of the iteration) -/
 def evCmp (cfg : Cfg) : Node → Nat
   | .str _ => 0
-  | .tag n a kx v ks => max (max (sameCost cfg) (evBoundaries cfg (.tag n a kx v ks) ks)) (evCmpL cfg ks)
-def evCmpL (cfg : Cfg) : List Node → Nat
+  | .tag n a kx v ks => evKids cfg (.tag n a kx v ks) [] ks
+/-- the comparisons made while the children `ks` of `p` arrive; `s` = what the previous child left on the stack above
+    `p` (nothing before the first child): `p` is compared with each of those (different objects: popped), then with
+    itself -/
+def evKids (cfg : Cfg) (p : Node) (s : List Node) : List Node → Nat
   | [] => 0
-  | k :: ks => max (evCmp cfg k) (evCmpL cfg ks)
+  | k :: ks => max (max (loopMax s (cmpCost cfg p)) (sameCost cfg)) (max (evCmp cfg k) (evKids cfg p (spineD k) ks))
+end
+
+/-! #### code mirror of the generator (element.py:2480-2504), statement by statement
+
+    Elements carry their object identity (`id` = position in document order below the root of the iteration, the root
+    is 0) and the identity of `.parent`. `tag_stack` holds identities (with the subtree, for the structural `!=`). The
+    TEST `c.parent <cmp> tag_stack[-1]` is decided by identity in both variants — for the two objects compared here
+    (an element's parent and a tag still open below it, i.e. one contained in the other) structural inequality
+    coincides with non-identity, their sizes differ (`beqN_sizeN`); the variants differ in what the test COSTS. -/
+
+/-- an element as the loop sees it -/
+structure Elem where
+  id : Nat
+  parent : Nat
+  node : Node
+  parentNode : Node
+
+mutual
+/-- `self_and_descendants` of a subtree whose root has identity `i` and parent `(pid, pn)`: document order -/
+def flatN (pid : Nat) (pn : Node) (i : Nat) : Node → List Elem
+  | .str v => [⟨i, pid, .str v, pn⟩]
+  | .tag n a kx v ks => ⟨i, pid, .tag n a kx v ks, pn⟩ :: flatL i (.tag n a kx v ks) (i + 1) ks
+def flatL (pid : Nat) (pn : Node) (j : Nat) : List Node → List Elem
+  | [] => []
+  | k :: ks => flatN pid pn j k ++ flatL pid pn (j + sizeN k) ks
+end
+
+/-- the events `_event_stream` yields (with the identity of the element) -/
+inductive Evt where
+  | start (id : Nat)
+  | «end» (id : Nat)
+  | empty (id : Nat)
+  | string (id : Nat)
+deriving Repr, DecidableEq
+
+abbrev TagStack := List (Nat × Node)      -- top first
+
+def ends (s : TagStack) : List Evt := s.map (fun x => Evt.end x.1)
+
+/-- `while tag_stack and c.parent <cmp> tag_stack[-1]: now_closed_tag = tag_stack.pop(); yield END, now_closed_tag`
+    → (stack afterwards, END events, deepest comparison) -/
+def closeWhile (cfg : Cfg) (c : Elem) : TagStack → TagStack × List Evt × Nat
+  | [] => ([], [], 0)                                         -- `tag_stack` empty: the test is not evaluated
+  | (tid, tn) :: rest =>
+    if c.parent = tid then ((tid, tn) :: rest, [], sameCost cfg)            -- same object: the loop ends
+    else
+      let (st, evs, cost) := closeWhile cfg c rest
+      (st, Evt.end tid :: evs, max (cmpCost cfg c.parentNode tn) cost)
+
+/-- the body of `for c in iterator:` -/
+def evStep (cfg : Cfg) (st : TagStack) (c : Elem) : TagStack × List Evt × Nat :=
+  let (st1, closed, cost) := closeWhile cfg c st
+  match c.node with
+  | .str _ => (st1, closed ++ [Evt.string c.id], cost)                       -- `yield STRING_ELEMENT_EVENT, c`
+  | .tag _ _ _ v ks =>
+    if v && ks.isEmpty then (st1, closed ++ [Evt.empty c.id], cost)          -- `if c.is_empty_element: yield EMPTY…`
+    else ((c.id, c.node) :: st1, closed ++ [Evt.start c.id], cost)           -- `yield START…; tag_stack.append(c)`
+
+def evRun (cfg : Cfg) : TagStack → List Elem → TagStack × List Evt × Nat
+  | st, [] => (st, [], 0)
+  | st, c :: cs =>
+    let (st1, e1, c1) := evStep cfg st c
+    let (st2, e2, c2) := evRun cfg st1 cs
+    (st2, e1 ++ e2, max c1 c2)
+
+/-- the whole generator on `self.self_and_descendants`, including the final `while tag_stack: pop; yield END` -/
+def eventStreamImpl (cfg : Cfg) (t : Node) : List Evt × Nat :=
+  let (st, evs, cost) := evRun cfg [] (flatN 0 t 0 t)        -- the root's own parent is never looked at (empty stack)
+  (evs ++ ends st, cost)
+
+/-- the comparisons made while the top-level elements `ks` arrive when the root of the iteration is NOT itself part of
+    it (`decode_contents`: `iterator=self.descendants`; any hidden receiver — the BeautifulSoup object —, which
+    `_self_and` leaves out, element.py:1236-1243): `p` is never on the stack, so everything the previous element left
+    open is compared with it and popped, and there is no comparison of `p` with itself -/
+def evKidsTop (cfg : Cfg) (p : Node) (s : List Node) : List Node → Nat
+  | [] => 0
+  | k :: ks => max (loopMax s (cmpCost cfg p)) (max (evCmp cfg k) (evKidsTop cfg p (spineD k) ks))
+
+/-- deepest comparison of the contents form -/
+def evCmpContents (cfg : Cfg) (t : Node) : Nat := evKidsTop cfg t [] (kidsOf t)
+
+/-- the generator on `self.descendants` (the receiver itself is not iterated over) -/
+def eventStreamContentsImpl (cfg : Cfg) (t : Node) : List Evt × Nat :=
+  let (st, evs, cost) := evRun cfg [] (flatL 0 t 1 (kidsOf t))
+  (evs ++ ends st, cost)
+
+mutual
+/-- what the stream means: the obvious recursive rendering skeleton -/
+def evSpecN (i : Nat) : Node → List Evt
+  | .str _ => [Evt.string i]
+  | .tag _ _ _ v ks => if v && ks.isEmpty then [Evt.empty i] else Evt.start i :: (evSpecL (i + 1) ks ++ [Evt.end i])
+def evSpecL (j : Nat) : List Node → List Evt
+  | [] => []
+  | k :: ks => evSpecN j k ++ evSpecL (j + sizeN k) ks
 end
 
 /-- `_last_descendant` (element.py:656-682): a loop down the last children -/
@@ -217,6 +311,10 @@ def descGenDepth (l : Loc) : Nat := call (max (lastDescDepth l.node) (loop0 (des
     comparison -/
 def eventStreamDepth (cfg : Cfg) (l : Loc) : Nat :=
   call (max (call (descGenDepth l)) (evCmp cfg l.node))
+
+/-- the generator on `self.descendants` (`decode_contents`, `__deepcopy__`, and every hidden receiver) -/
+def eventStreamContentsDepth (cfg : Cfg) (l : Loc) : Nat :=
+  call (max (descGenDepth l) (evCmpContents cfg l.node))
 
 /-! ### `_is_xml` (element.py:468-488) and `formatter_for_name` (:439-465) -/
 
@@ -245,6 +343,10 @@ def renderPiece (l : Loc) : Nat :=
 def decodeDepth (cfg : Cfg) (l : Loc) : Nat :=
   call (max (formatterForNameDepth cfg l) (max (eventStreamDepth cfg l) (loopMax (selfAndDescs l) renderPiece)))
 
+/-- `Tag.decode(iterator=self.descendants)` and `decode` of a hidden receiver (the BeautifulSoup object) -/
+def decodeBodyDepth (cfg : Cfg) (l : Loc) : Nat :=
+  call (max (formatterForNameDepth cfg l) (max (eventStreamContentsDepth cfg l) (loopMax (descs l.anc l.node) renderPiece)))
+
 /-- `encode` = `decode` then `str.encode` (C) -/
 def encodeDepth (cfg : Cfg) (l : Loc) : Nat := call (decodeDepth cfg l)
 /-- `prettify(encoding)` → `encode(indent_level=0)` → `decode`; `prettify()` → `decode` -/
@@ -254,10 +356,10 @@ def strDepth (cfg : Cfg) (l : Loc) : Nat := call (decodeDepth cfg l)
 /-- `__hash__ = str(self).__hash__()` -/
 def hashDepth (cfg : Cfg) (l : Loc) : Nat := call (strDepth cfg l)
 /-- `decode_contents` → `decode(iterator=self.descendants)`; `encode_contents` one more -/
-def decodeContentsDepth (cfg : Cfg) (l : Loc) : Nat := call (decodeDepth cfg l)
+def decodeContentsDepth (cfg : Cfg) (l : Loc) : Nat := call (decodeBodyDepth cfg l)
 def encodeContentsDepth (cfg : Cfg) (l : Loc) : Nat := call (decodeContentsDepth cfg l)
 /-- `BeautifulSoup.decode` → `Tag.decode` -/
-def docDecodeDepth (cfg : Cfg) (l : Loc) : Nat := call (decodeDepth cfg l)
+def docDecodeDepth (cfg : Cfg) (l : Loc) : Nat := call (decodeBodyDepth cfg l)
 
 /-! ### copying (element.py:1760-1812, 493-500, 1309-1321; bs4/__init__.py:492-503) -/
 
@@ -331,7 +433,7 @@ def deepcopyPiece (cfg : Cfg) (d : Loc) : Nat :=
       (appendDepth ⟨[], [], .tag 0 0 true false []⟩ ⟨[], [], .str 0⟩ false)
 
 def deepcopyDepth (cfg : Cfg) (isDoc : Bool) (l : Loc) : Nat :=
-  call (max (copySelfDepth cfg isDoc l) (max (eventStreamDepth cfg l) (loopMax (descs l.anc l.node) (deepcopyPiece cfg))))
+  call (max (copySelfDepth cfg isDoc l) (max (eventStreamContentsDepth cfg l) (loopMax (descs l.anc l.node) (deepcopyPiece cfg))))
 
 /-- `__copy__` → `__deepcopy__({})`; `copy.copy` itself adds one more -/
 def copyDepth (cfg : Cfg) (isDoc : Bool) (l : Loc) : Nat := call (call (deepcopyDepth cfg isDoc l))
